@@ -399,10 +399,12 @@ def afterLoop (env : Env) (raw : Raw) : Prog (TokType × List Ch) :=
       if ty ≠ .quoted ∧ tok = [ch '$'] then (TokType.number, env.dollar) else (ty, tok)
     .ret (ty, tok)
 
-/-- tokens_get() -/
-def tokensGet (env : Env) : Nat → Prog Tok
-  | 0 => .ret { ty := .eof, text := [], fuel := true }
-  | n + 1 =>
+/-- tokens_get(); the first number bounds the depth of the recursion through macro
+    expansions (the code has no bound: `A equ A` recurses until the C stack is gone),
+    the second the characters read by one loop -/
+def tokensGetD (env : Env) : Nat → Nat → Prog Tok
+  | 0, _ => .ret { ty := .eof, text := [], fuel := true }
+  | dep + 1, n =>
     (lexLoop env n [] .eof 0).bind fun raw =>
       match raw.how with
       | .fuel => .ret { ty := .eof, text := [], fuel := true }
@@ -420,7 +422,7 @@ def tokensGet (env : Env) : Nat → Prog Tok
                   .push text arena fun ok =>
                     if !ok then .ret { ty := .eof, text := tok, errs := raw.errs + 1 }
                     else
-                      (tokensGet env n).bind fun t =>
+                      (tokensGetD env dep n).bind fun t =>
                         .ret { t with text := octalFix t.ty t.text, errs := t.errs + raw.errs }
                 if d.params = 0 then enter d.text false
                 else
@@ -433,5 +435,10 @@ def tokensGet (env : Env) : Nat → Prog Tok
               | none =>
                 let (ty', tok') := stringNumber env tok
                 .ret { ty := ty', text := octalFix ty' tok', errs := raw.errs }
+
+/-- depth of macro re-entry the model follows before it answers `fuel` -/
+def expFuel : Nat := 3000
+
+def tokensGet (env : Env) (n : Nat) : Prog Tok := tokensGetD env expFuel n
 
 end NakenVerif.Macro
